@@ -150,7 +150,17 @@ def wrap(mds, positions):
     for md, p in zip(mds, positions):
         if p == 1:
             src = f"MetaData({src}, {md!r})"
-    return src + ".Select(lambda e: e.Jets('A').Count())"
+    # 2 = around the event inside the final lambda; 3 = around the event inside an element of an intermediate tuple that the
+    # next step never looks at (the element is dropped by the tuple resolution - its declarations still count)
+    ev_used, ev_dropped = "e", "e"
+    for md, p in zip(mds, positions):
+        if p == 2:
+            ev_used = f"MetaData({ev_used}, {md!r})"
+        if p == 3:
+            ev_dropped = f"MetaData({ev_dropped}, {md!r})"
+    if any(p == 3 for p in positions):
+        return src + f".Select(lambda e: ({ev_dropped}.Jets('A'), {ev_used}.Jets('A'))).Select(lambda pr: pr[1].Count())"
+    return src + f".Select(lambda e: {ev_used}.Jets('A').Count())"
 
 
 def expected_of(mds):
@@ -182,7 +192,7 @@ def run_case(args):
     hist = args[4] if len(args) > 4 else ()
     q = wrap(mds, positions)
     if backend != "atlas":
-        q = q.replace("e.Jets('A')", "e.Muons('A')")
+        q = q.replace(".Jets('A')", ".Muons('A')")
     if hist:
         # earlier queries on the SAME executor object: 'apply' = transformed but never written (a dry run / abandoned
         # translation), 'full' = translated completely, 'fail' = a translation that raised.  The package of the query
@@ -211,7 +221,7 @@ def run_case(args):
         pkg = translate(q, backend)
     # processing order: func_adl reports metadata outermost first
     pairs = list(zip(mds, positions))
-    outer_first = [m for m, p in reversed(pairs) if p == 1] + [m for m, p in reversed(pairs) if p == 0]
+    outer_first = [m for m, p in reversed(pairs) if p == 1] + [m for m, p in reversed(pairs) if p == 0] + [m for m, p in pairs if p in (2, 3)]
     exp = expected_of(outer_first)
     if not pkg.ok:
         if exp[0] == "error" and pkg.exc_type == "ValueError":
@@ -313,6 +323,19 @@ def build_cases(tier):
     for f in ("body_includes", "header_includes"):
         cases.append((cid, [block_md("blk", {f: ["Pkg/Sub/MET.h", "Pkg/Sub/Met.h", "pkg/sub/met.h"]})], (0,), "atlas"))
         cid += 1
+    # placements inside lambdas: on the event of the final lambda (2), inside a tuple element that is later discarded (3)
+    for backend in ("atlas", "cms_aod", "cms_miniaod"):
+        b1 = block_md("inl", {"body_includes": ["tools/Inl.h"]} if backend != "atlas" else {"body_includes": ["tools/Inl.h"], "header_includes": ["tools/InlDecl.h"], "private_members": ["int m_inl;"], "link_libraries": ["InlLib"]})
+        b2 = block_md("other", {"body_includes": ["tools/Other.h"]})
+        b1x = block_md("inl", {"body_includes": ["tools/Different.h"]})
+        for pos in ((2,), (3,)):
+            cases.append((cid, [b1], pos, backend))
+            cid += 1
+        for pos in ((2, 3), (3, 2), (0, 3), (3, 0), (1, 3), (3, 3), (2, 2)):
+            cases.append((cid, [b1, b2], pos, backend))
+            cid += 1
+            cases.append((cid, [b1, b1x], pos, backend))      # same name, different content: an error wherever the copies sit
+            cid += 1
     # several blocks: menu of relations, all orders, all placements
     def menu(k):
         f1 = FIELDS[k % len(FIELDS)]
